@@ -241,6 +241,16 @@ impl Scenario for FaultScen {
             p.stream = st;
         } else if rng.chance(3, 4) {
             p.enumerate = true;
+            if rng.chance(1, 4) && p.toks.iter().any(|t| t.k == TK::Start) {
+                // a call history instead of plain reads: the refill calls made inside
+                // read_to_end_into / read_to_end_into_async are fault points too
+                let n = 2 * p.toks.len() + 3;
+                let share = *rng.pick(&[2usize, 3, 5]);
+                for i in 0..n {
+                    p.ops.push(if i > 0 && rng.chance(1, share) { Op::Skip } else { Op::Read });
+                }
+                p.note.push_str("; call history with skips");
+            }
         } else {
             // random multi-fault pattern
             let calls = (p.stream.cuts.len() * 2 + 6) as usize;
@@ -252,7 +262,7 @@ impl Scenario for FaultScen {
                 if rng.bool() {
                     p.stream.faults.push(FaultAt { call: c, fault: Fault::Eintr(1) });
                 }
-                p.stream.faults.push(FaultAt { call: c, fault: Fault::Err(rng.below(5) as u8) });
+                p.stream.faults.push(FaultAt { call: c, fault: Fault::Err(rng.below(10) as u8) });
             }
             p.stream.faults.sort_by_key(|f| f.call);
         }
@@ -263,7 +273,18 @@ impl Scenario for FaultScen {
         let shared = Rc::new(plan.doc.clone());
         let tag = crate::rng::mix64(plan.run) >> 8;
         let base_st = strip_hard(&plan.stream);
-        let base = run_reads(&plan.doc, &shared, &base_st, plan.reader, plan.cfg, tag, false);
+        // plain reads to Eof, or the plan's call history (the caller gives up at an I/O error)
+        let run = |s: &Stream| -> RunRec {
+            if plan.ops.is_empty() {
+                run_reads(&plan.doc, &shared, s, plan.reader, plan.cfg, tag, false)
+            } else {
+                crate::scen_chunk::run_ops_on(plan, &shared, s, true)
+            }
+        };
+        if !plan.ops.is_empty() {
+            st.bump("fault.plans_with_call_history");
+        }
+        let base = run(&base_st);
         st.executions += 1;
         monitor_violations(&base, plan, "fault-free run", &mut out);
         st.bump(&format!("source.{}", plan.stream.kind.name()));
@@ -276,7 +297,7 @@ impl Scenario for FaultScen {
             let stride = (calls / 400).max(1);
             let mut c = 0;
             while c < calls {
-                for f in [Fault::Eintr(1), Fault::Eintr(3), Fault::Err(((c + plan.run as u32) % 5) as u8)] {
+                for f in [Fault::Eintr(1), Fault::Eintr(3), Fault::Err(((c + plan.run as u32) % 10) as u8)] {
                     let mut s = base_st.clone();
                     // relative to a Pending planned for the same call the hard fault comes
                     // after it (even call index) or before it (odd): both orders occur
@@ -294,7 +315,7 @@ impl Scenario for FaultScen {
             variants.push(plan.stream.clone());
         }
         for s in &variants {
-            let got = run_reads(&plan.doc, &shared, s, plan.reader, plan.cfg, tag, false);
+            let got = run(s);
             st.executions += 1;
             count_faults(&got, st);
             monitor_violations(&got, plan, "faulted run", &mut out);
